@@ -143,6 +143,30 @@ Theorem C08_run_until_stops_at_end : forall fuel nxt e s s', run_until fuel nxt 
   e <= clock s' /\ (clock s < e -> exists s1, clock s1 < e /\ s' = step nxt s1).
 Proof. exact run_until_stops_at_end. Qed.
 
+(* A LISTENER THAT RAISES (bad says which call raises): the step is abandoned on the spot - the listeners called are exactly
+   those before it in the step's call order plus itself; no later listener, no later event of that step; the clock, the
+   step size and the step count do not move. *)
+Theorem C08_raising_listener_abandons_step : forall bad nxt s s', step_r bad nxt s = (s', true) ->
+  clock s' = clock s /\ stepsz s' = stepsz s /\ nsteps s' = nsteps s /\ icalls s' = icalls s /\ lst s' = lst s /\
+  exists pre x post, flat_map (emission_tcalls (lst s) (clock s) (stepsz s)) [ch_prepare; ch_time_step; ch_cleanup; ch_collect]
+                     = pre ++ x :: post
+    /\ calls s' = calls s ++ pre ++ [x] /\ bad x = true /\ Forall (fun y => bad y = false) pre.
+Proof. exact raising_listener_abandons_step. Qed.
+
+(* if no call of the step raises, the step with exceptions is the ordinary step; and with no raising listener at all the
+   whole run is the ordinary run *)
+Theorem C08_step_without_raise : forall bad nxt s s', step_r bad nxt s = (s', false) ->
+  s' = step nxt s /\ Forall (fun y => bad y = false) (step_tcalls (lst s) (clock s) (stepsz s)).
+Proof. exact step_r_clean. Qed.
+Theorem C08_run_without_raisers : forall fuel nxt s,
+  run_loop_r fuel (fun _ => false) nxt s
+  = match run_loop fuel nxt s with Ok s' => Ok (s', false) | Rejected e => Rejected e | OutOfFuel => OutOfFuel end.
+Proof. exact run_loop_r_never. Qed.
+(* a run abandoned by a raising listener stands where the abandoned step began, before the stop time *)
+Theorem C08_abandoned_run_did_not_advance : forall fuel bad nxt s s', run_loop_r fuel bad nxt s = Ok (s', true) ->
+  clock s' < stop s'.
+Proof. exact run_loop_r_raised. Qed.
+
 (* the comparison Coq makes between an observed call sequence and the model's (up to a permutation inside each bucket)
    means what it says: exactly the model's listeners with multiplicity, bucket by bucket *)
 Theorem C08_comparison_sound : forall expected obs, same_up_to_buckets expected obs = true ->
@@ -181,6 +205,15 @@ Example demo_session_variable_step :
   match interactive_session 9 (table_nxt [(12, 3)]) [11; 12; 16; 3] (mk_sim 10 100 2 demo_comps) with
   | Ok s => (nsteps s, clock s, stepsz s) | _ => (-1, 0, 0) end = (3, 18, 3).
 Proof. vm_compute. reflexivity. Qed.
+(* listener 2005 (component 2's time_step hook, bucket 5) raises from clock 13 on: step 1 (clock 10) completes, step 2 is
+   abandoned inside time_step after buckets 0 and listener 1005: clock stays 13, one completed step, no cleanup / metrics *)
+Example demo_raise :
+  match run_simulation_r 9 (raises_when 2005 13) fixed (mk_sim 10 17 3 demo_comps) with
+  | Ok (s, raised) => (raised, nsteps s, clock s,
+                       map (fun tc : tcall => (fst tc, tc_lid tc)) (filter (fun tc => tc_clock tc =? 13) (calls s)))
+  | _ => (false, -1, 0, []) end
+  = (true, 1, 13, [(0%nat, 2004); (0%nat, 102); (0%nat, 101); (5%nat, 1005); (5%nat, 2005)]).
+Proof. vm_compute. reflexivity. Qed.
 Example demo_zero_length :
   match run_only 0 fixed (mk_sim 10 10 3 demo_comps) with Ok s => (nsteps s, clock s, length (icalls s)) | _ => (-1, 0, 0%nat) end
   = (0, 10, 2%nat)
@@ -211,3 +244,7 @@ Print Assumptions C08_interactive_run_agrees.
 Print Assumptions C08_run_until_count.
 Print Assumptions C08_run_until_stops_at_end.
 Print Assumptions C08_comparison_sound.
+Print Assumptions C08_raising_listener_abandons_step.
+Print Assumptions C08_step_without_raise.
+Print Assumptions C08_run_without_raisers.
+Print Assumptions C08_abandoned_run_did_not_advance.
